@@ -138,13 +138,14 @@ def readEscapedByte (s : Scanner) : Option Nat × Scanner :=
   | some a =>
     if a == '"' then (none, s)
     else
-      let s1 := { s with current := s.current + 1 }
+      -- a line end consumed as a "digit" is still a line of the source (repair F45)
+      let s1 := { s with current := s.current + 1, line := if a == '\n' then s.line + 1 else s.line }
       match s1.src[s1.current]? with
       | none => (none, s1)
       | some b =>
         if b == '"' then (none, s1)
         else
-          let s2 := { s1 with current := s1.current + 1 }
+          let s2 := { s1 with current := s1.current + 1, line := if b == '\n' then s1.line + 1 else s1.line }
           (parseHexByte a b, s2)
 
 def readEscapedBytesAux : Nat → List Nat → Scanner → Option (List Nat) × Scanner
